@@ -215,6 +215,51 @@ Section Lam2.
   Qed.
 End Lam2.
 
+(* lambda is multiplicative in the iteration count, hence bounded away from zero at the end of the schedule *)
+Lemma lam_add (T a b : nat) : lam_seq T (a + b) == lam_seq T a * lam_seq T b.
+Proof.
+  induction a as [|a IH].
+  - cbn [Nat.add]. unfold lam_seq at 2. cbn [Nat.iter nat_rect]. ring.
+  - cbn [Nat.add]. rewrite !lam_step, IH. ring.
+Qed.
+
+Lemma lam_final_lower (T : nat) : (2 <= T)%nat -> 2 # 9 <= lam_seq T T.
+Proof.
+  intros HT. assert (HT1 : (1 <= T)%nat) by lia.
+  set (a := (T / 2)%nat). set (b := (T - a)%nat).
+  assert (Hab : (a + b = T)%nat).
+  { unfold b, a. pose proof (Nat.div_lt_upper_bound T 2 T). lia. }
+  assert (Ha1 : (1 <= a)%nat).
+  { unfold a. apply (Nat.div_le_lower_bound T 2 1); lia. }
+  assert (Hb : (b = a \/ b = a + 1)%nat).
+  { unfold b, a. pose proof (Nat.div_mod T 2). pose proof (Nat.mod_upper_bound T 2). lia. }
+  rewrite <- Hab at 2. rewrite lam_add.
+  pose proof (lam_lower T HT1 a) as La. pose proof (lam_lower T HT1 b) as Lb.
+  pose proof (y_pos T HT1) as Hy. pose proof (wy T HT1) as Hwy.
+  set (y := / inject_Z (Z.of_nat T)) in *.
+  set (qa := inject_Z (Z.of_nat a)) in *. set (qb := inject_Z (Z.of_nat b)) in *.
+  assert (Hw : inject_Z (Z.of_nat T) == qa + qb).
+  { unfold qa, qb. rewrite <- inject_Z_plus, <- Nat2Z.inj_add, Hab. reflexivity. }
+  rewrite Hw in Hwy.
+  assert (Ea : 1 - qa * y == qb * y) by (rewrite <- Hwy; ring).
+  assert (Eb : 1 - qb * y == qa * y) by (rewrite <- Hwy; ring).
+  rewrite Ea in La. rewrite Eb in Lb.
+  assert (Hqa : 1 <= qa).
+  { unfold qa. change 1 with (inject_Z 1). rewrite <- Zle_Qle. lia. }
+  assert (Hqb : qa <= qb /\ qb <= qa + 1).
+  { unfold qa, qb. change 1 with (inject_Z 1). rewrite <- inject_Z_plus, <- !Zle_Qle. lia. }
+  destruct Hqb as [Hqb1 Hqb2].
+  assert (P : 0 <= qb * y) by nra. assert (P' : 0 <= qa * y) by nra.
+  assert (M : (qb * y) * (qa * y) <= lam_seq T a * lam_seq T b) by nra.
+  (* 9 qa qb >= 2 (qa + qb)^2 and (qa + qb) y = 1 *)
+  assert (K : 2 * ((qa + qb) * (qa + qb)) <= 9 * (qa * qb)) by nra.
+  assert (Y2 : ((qa + qb) * y) * ((qa + qb) * y) == 1) by (rewrite Hwy; ring).
+  assert (0 <= y * y) by nra.
+  assert (2 * (((qa + qb) * (qa + qb)) * (y * y)) <= 9 * ((qa * qb) * (y * y))) by nra.
+  assert (((qa + qb) * (qa + qb)) * (y * y) == 1) by (rewrite <- Y2; ring).
+  nra.
+Qed.
+
 (* `lambda_schedule_every_max_iteration`: for every max_iteration (0 included), both strategies, every N,
    with T = the divisor the shipped code uses: lambda stays in [0,1] and never increases, it is bounded by
    1 - t/T <= lambda_t <= T/(T+t), and after the T iterations of the loop lambda_T <= 1/2 *)
@@ -241,7 +286,7 @@ Theorem lambda_schedule_automatic_proof (global : bool) (N t : nat) :
   let T := sc_div (spe_schedule global N 0) in
   T = auto_iterations global N /\ (2000 <= T)%nat /\ sc_loop (spe_schedule global N 0) = T /\
   0 < lam_seq T t /\ lam_seq T t <= 1 /\ lam_seq T (S t) < lam_seq T t /\
-  ((2 * t <= T)%nat -> 1 # 2 <= lam_seq T t) /\ lam_seq T T <= 1 # 2.
+  ((2 * t <= T)%nat -> 1 # 2 <= lam_seq T t) /\ 2 # 9 <= lam_seq T T /\ lam_seq T T <= 1 # 2.
 Proof.
   intros T. destruct (spe_schedule_ok_proof global N 0) as [[E _] [H0 _]]. fold T in E, H0.
   destruct (H0 eq_refl) as [Ea Hge].
@@ -251,6 +296,7 @@ Proof.
   - apply (lam_range T H1 t).
   - apply lam_strict; assumption.
   - apply lam_first_half; assumption.
+  - apply lam_final_lower; assumption.
   - apply lam_final; assumption.
 Qed.
 
